@@ -135,13 +135,10 @@ Monotone(edges) == \A k \in 1..(Len(edges) - 1) : edges[k] <= edges[k + 1]
 Blip(s) == s[2] = 0 /\ s[3] # "w"
 \* (an open tail pulse - see OpenTail - delimits what precedes it only if that is at another level)
 IsOpenTail(s) == s[3] = "t" /\ s[2] = 0
-RECURSIVE DropBlips(_)
-DropBlips(segs) == IF Len(segs) > 1 /\ Blip(Last(segs)) THEN DropBlips(Front(segs)) ELSE segs
-RECURSIVE TrimLevel(_, _)
-TrimLevel(segs, lv) ==
-  IF Len(segs) > 1 /\ Blip(Last(segs)) THEN TrimLevel(Front(segs), lv)
-  ELSE IF Len(segs) > 1 /\ Last(segs)[3] = "w" /\ Last(segs)[1] = lv THEN TrimLevel(Front(segs), lv)
-  ELSE segs
+\* segs without its longest tail of segments satisfying Gone (the first segment, the leading silence, stays)
+DropTail(segs, Gone(_)) == LET k == SX!SelectLastInSeq(segs, LAMBDA s : ~Gone(s)) IN SubSeq(segs, 1, IF k < 1 THEN 1 ELSE k)
+DropBlips(segs) == DropTail(segs, Blip)
+TrimLevel(segs, lv) == DropTail(segs, LAMBDA s : Blip(s) \/ (s[3] = "w" /\ s[1] = lv))
 TrimSilence(segs) == IF Len(segs) > 1 /\ IsOpenTail(Last(segs)) THEN TrimLevel(Front(segs), Last(segs)[1])
                      ELSE LET s1 == DropBlips(segs) IN TrimLevel(s1, Last(s1)[1])
 PlayedSignal(edges) == Canon(EdgeSegs(edges))
@@ -150,8 +147,8 @@ PlayedSignal(edges) == Canon(EdgeSegs(edges))
 \* not specified (SkoolKit shows an edge when the block states a level other than the one its edge list shows or
 \* when the blip is a tone pulse, none when the level is implied or the blip is the leading zero-length pulse
 \* by which a PZX pulse block says "starts high"): then an edge list may expose any part of the trailing silence.
-BlipTail(segs) == \E j \in 1..Len(segs) : /\ Blip(segs[j]) /\ ~IsOpenTail(segs[j])
-                                          /\ \A i \in j..Len(segs) : Blip(segs[i]) \/ segs[i][3] = "w"
+BlipTail(segs) == LET k == SX!SelectLastInSeq(segs, LAMBDA s : ~(Blip(s) \/ s[3] = "w")) IN       \* the last pulse of some length
+                  k < Len(segs) /\ SX!SelectInSubSeq(segs, k + 1, Len(segs), LAMBDA s : Blip(s) /\ ~IsOpenTail(s)) # 0
 \* p is an initial part of q: all segments but the last equal, the last at the same level and not longer
 SigPrefix(p, q) == \/ Len(p) = 0
                    \/ /\ Len(p) <= Len(q) /\ \A j \in 1..(Len(p) - 1) : p[j] = q[j]
